@@ -4,3 +4,4 @@ import MCHap.Properties.C03
 import MCHap.Properties.C04
 import MCHap.Properties.C05
 import MCHap.Properties.C11
+import MCHap.Properties.C15
